@@ -30,6 +30,7 @@ class Suite:
     reduce: bool = True
     require_tag: t.Optional[str] = None          # only cases whose reference evaluation carries this tag
     unnamed_switches: bool = False               # SwitchCase marks without name= (uuid-suffixed synthetic ids)
+    shared_switch_names: bool = False            # identical SwitchCase marks of several consumers share one name
 
 
 TERM = {'deadlock', 'livelock'}
@@ -125,6 +126,7 @@ def suites(prop: str, tier: str) -> t.List[Suite]:
             Suite('composed', ['switchx'], mons, 0, ['async'] if q else ['async', 'thread'], symptoms=sym),
             Suite('d0-thread', ['switch', 'corpus'], mons, 0, ['thread'], symptoms=sym),
             Suite('unnamed', ['switch', 'corpus'] + ([] if q else ['switchx']), mons, 0, ['async'], symptoms=sym, unnamed_switches=True),
+            Suite('shared-named', ['switch', 'switchx', 'corpus'], mons, 0, ['async'], symptoms=sym, shared_switch_names=True),
             Suite('d1', ['corpus', 'switch'], mons, 1, ['thread'], symptoms=sym, max_nodes=4 if q else 5),
         ]
     if prop == 'C10':
@@ -231,6 +233,10 @@ def work(arg: tuple) -> dict:
     import time as _t
     _t0 = _t.time()
     out = dict(cases=0, executions=0, transitions=0, states=0, capped=0, viol=[], internal=[], outcomes=0, sample=None, cpu=0.0, stock=0)
+    if suite.shared_switch_names:
+        spec = S.share_switch_names(spec)
+        if spec is None:
+            return dict(cases=0, executions=0, transitions=0, states=0, capped=0, viol=[], internal=[], outcomes=0, sample=None, cpu=0.0, stock=0)
     if suite.unnamed_switches:
         spec = json.loads(json.dumps(spec))
         for nd in spec['nodes'].values():
